@@ -168,3 +168,119 @@ def c04(run, selftest=True):
         "darling::Error values and len/Display/flatten/into_iter/syn::Error/write_errors compared with the spec's prediction; "
         "random walks (pool<=5, leaves<=8, 8 kinds) likewise; random real histories (10 kinds, arity<=5) are validated as behaviours "
         "of the spec by Trace_ErrorAlgebra with every law as invariant. A case is one (pre-state, operation) pair.")
+
+
+# =====================================================================================================
+# C05 - accumulator
+# =====================================================================================================
+
+ACC_CFG = """SPECIFICATION Spec
+CONSTANTS
+  ErrIds = {ids}
+  Vals = {vals}
+  MaxOps = {ops}
+  MaxExtend = {ext}
+  EMIT = TRUE
+INVARIANTS Clauses Ownership EmitDone
+CHECK_DEADLOCK FALSE
+"""
+
+ACC_TRACE_CFG = """SPECIFICATION TraceSpec
+CONSTANTS
+  ErrIds = {"e1", "e2", "e4", "b3"}
+  Vals = {1, 2, 3}
+  MaxOps = 100000
+  MaxExtend = 3
+  EMIT = FALSE
+INVARIANTS Clauses Ownership
+POSTCONDITION TraceAccepted
+CHECK_DEADLOCK FALSE
+"""
+
+
+def vh_guarded(run, module, path):
+    """Replay with an abort guard: a case that kills the harness process (double panic -> SIGABRT) is data."""
+    marker = run.path("marker.json")
+    try:
+        return run.vh("replay", module, path, env={"VH_MARKER": marker})
+    except ToolError as e:
+        if os.path.exists(marker):
+            m = json.load(open(marker))
+            run.violation("abort:" + module + ":" + m["op"]["name"],
+                          "the process aborted (panic while panicking) during %s" % m["op"]["name"],
+                          {"module": module, "case": m, "why": [str(e)[:300]]})
+            return {"cases": 0}
+        raise
+
+
+@plan("C05")
+def c05(run, selftest=True):
+    run.build()
+    q = run.tier == "quick"
+    configs = [('{"e1", "e2", "b3"}', "{1, 2}", 4, 2)] if q else [('{"e1", "e2", "b3"}', "{1, 2}", 4, 2), ('{"e1", "b3"}', "{1}", 5, 2)]
+    for n, (ids, vals, ops, ext) in enumerate(configs):
+        res = run.tlc("Accumulator", ACC_CFG.format(ids=ids, vals=vals, ops=ops, ext=ext), "acc_exh%d" % n, workers=4 if q else 8)
+        run.require_tlc_ok(res, "Accumulator (exhaustive histories)")
+        r = vh_guarded(run, "accum", res["out"])
+        run.add_replay_result("accum", r)
+        if selftest and n == 0:
+            def flip(case):
+                for h in case["hist"]:
+                    if h["res"]["t"] == "err" and len(h["res"]["es"]) >= 2 and h["res"]["es"][0] != h["res"]["es"][-1]:
+                        h["res"]["es"].reverse()
+                        return True
+                return False
+            selftest_replay(run, "accum", res["out"], flip, "reverse the recorded order in an expected Err")
+        os.remove(res["out"])
+    # longer histories: random walks of the same spec
+    res = run.tlc("Accumulator", ACC_CFG.format(ids='{"e1", "e2", "e4", "b3"}', vals="{1, 2, 3}", ops=14, ext=3), "acc_sim",
+                  workers=1, simulate=300 if q else 20000, depth=15)
+    run.require_tlc_ok(res, "Accumulator (simulate)")
+    r = vh_guarded(run, "accum", res["out"])
+    run.add_replay_result("accum", r)
+    os.remove(res["out"])
+    # impl -> spec
+    tr = run.path("acc.ndjson")
+    runs, ops = (300, 40) if q else (5000, 60)
+    marker = run.path("marker.json")
+    try:
+        rr = run.vh("record", "accum", vlib.seed() + 1, runs, ops, tr, env={"VH_MARKER": marker})
+    except ToolError as e:
+        if os.path.exists(marker):
+            run.violation("abort:record:unwind_drop", "the process aborted (panic while panicking) when an accumulator was dropped during unwinding",
+                          {"module": "accum-record", "case": json.load(open(marker)), "why": [str(e)[:300]]})
+            rr = None
+        else:
+            raise
+    if rr:
+        res = run.tlc("Trace_Accumulator", ACC_TRACE_CFG, "acc_trace", workers=1, deque=True, env={"TRACE": tr})
+        if not res["ok"]:
+            tail = run.tlc_tail(res, 12)
+            run.violation("trace:accum", "recorded history of a real Accumulator is not a behaviour of Accumulator.tla: " + tail[-900:],
+                          {"module": "accum-trace", "tlc_tail": tail, "record_cmd": "vh record accum %d %d %d" % (vlib.seed() + 1, runs, ops)})
+        else:
+            run.traces += rr["runs"]
+            run.trace_events += rr["events"]
+        if selftest:
+            bad = run.path("acc_bad.ndjson")
+
+            def mut(ev):
+                for e in ev:
+                    if e["res"]["t"] == "err" and e["res"]["n"] >= 2:
+                        e["res"]["es"].pop()
+                        e["res"]["n"] -= 1
+                        return
+                raise ToolError("selftest: no Err event to corrupt")
+            vlib.corrupt_ndjson(tr, bad, mut)
+            res = run.tlc("Trace_Accumulator", ACC_TRACE_CFG, "acc_trace_bad", workers=1, deque=True, env={"TRACE": bad}, expect_fail=True)
+            if res["ok"]:
+                raise ToolError("selftest: a corrupted trace (one recorded error dropped) was accepted by Trace_Accumulator")
+            run.notes.append("selftest trace-corruption (one recorded error dropped from an Err): rejected")
+    run.assumptions = ["error identities e1.. are custom-message leaves, b3 a located two-leaf bundle; values are i64",
+                       "drop-during-unwind is produced by panicking inside a frame that owns the live accumulator; an abort of the harness process is reported as a violation via a marker file"]
+    return run.finish(
+        "model_checking",
+        "every complete history of Accumulator.tla up to the bound (all 12 operations, 3 error ids, extend of 0..2) is executed call by call on "
+        "one real Accumulator and every result compared (values, Err contents and order, panic/no panic and lost-count, survival of unwinding); "
+        "longer random walks likewise; random real histories are validated as behaviours of the spec with the property's clauses as invariants. "
+        "A case is one history.")
